@@ -23,8 +23,14 @@ Fixpoint be_bytes (n : nat) (x : N) : list N :=
   | O => []
   | S n' => be_bytes n' (x / 256) ++ [x mod 256]
   end.
-(* harness notation: a key given as the 768-bit number its bytes spell *)
-Definition key_of_N (k : N) : list N := be_bytes VK_LEN k.
+(* harness notation: a key given as the 768-bit number its bytes spell
+   (same bytes as [be_bytes VK_LEN k], computed with shifts: linear instead of quadratic in the width) *)
+Fixpoint be_bytes_acc (n : nat) (x : N) (acc : list N) : list N :=
+  match n with
+  | O => acc
+  | S n' => be_bytes_acc n' (N.shiftr x 8) (N.land x 255 :: acc)
+  end.
+Definition key_of_N (k : N) : list N := be_bytes_acc VK_LEN k [].
 
 Definition bytes_eqb (a b : list N) : bool := list_eqb N.eqb a b.
 
@@ -188,8 +194,8 @@ Definition avk_term (r : result avk) : bt :=
   | _ => BLit []
   end.
 
-Definition mk_signers (keys : list N) (l : list (N * (N * N))) : list signer :=
-  map (fun t => mkS (fst t) (key_of_N (nth (N.to_nat (fst (snd t))) keys 0)) (snd (snd t))) l.
+Definition mk_signers (kb : list (list N)) (l : list (N * (N * N))) : list signer :=
+  map (fun t => mkS (fst t) (nth (N.to_nat (fst (snd t))) kb []) (snd (snd t))) l.
 
 Definition obs_list (l : list signer) : obs :=
   match signer_builder l with
@@ -208,5 +214,6 @@ Definition obs_list (l : list signer) : obs :=
    "all code paths computed the same key" flag, which is true by construction here
    (one function) *)
 Definition run (keys : list N) (lists : list (list (N * (N * N)))) : obs :=
-  let ls := map (mk_signers keys) lists in
+  let kb := map key_of_N keys in
+  let ls := map (mk_signers kb) lists in
   OL [OLN (eq_pattern (map (fun l => avk_term (compute_avk l)) ls)); OL (map obs_list ls); OZ 1].
